@@ -105,3 +105,11 @@ UNITS.append(Unit('backmp11.on_exit.per_state', ['C02', 'C03', 'C13'], 'backmp11
     xform=back_xform([], refparams=(), enums=ENUMS, drop=DROP2, rewrites=[
         dict(name='fsm-argument', pat='get_fsm_argument ( )', rep='self', min=0, max=1),
         dict(name='member-on_exit', pat='state . on_exit (', rep='substate_on_exit ( state ,', min=0, max=1)]), replay=['order']))
+
+UNITS.append(Unit('backmp11.state_entry_visitor.call', ['C02', 'C03', 'C10', 'C18', 'C13'], 'backmp11', Part(SB, ['class state_entry_visitor'], 'void operator ( ) ( State & state )'),
+    'void entry_visitor_call(entryvis_t* self, type_t State, stref_t state)', 'cascade_mp11.spec.h', defines=['UNIT_ENTRY_VISITOR=1'],
+    xform=back_xform([], refparams=(), enums=ENUMS, drop=DROP2, members=['m_self', 'm_event', 'm_region_id'], rewrites=[
+        dict(name='fsm-argument', pat='self -> m_self . get_fsm_argument ( )', rep='self -> m_self', min=0, max=1),
+        dict(name='member-on_entry', pat='state . on_entry (', rep='substate_on_entry ( state ,', min=0, max=2),
+        dict(name='TCALL-completed', pat='self -> m_self . template on_state_entry_completed < State > (', rep='entry_completed ( self -> m_self , State ,', min=0, max=2),
+        dict(name='TCALL-completed-b', pat='self -> m_self . on_state_entry_completed < State > (', rep='entry_completed ( self -> m_self , State ,', min=0, max=2)]), replay=['order', 'queue']))
